@@ -82,6 +82,8 @@ class CallGraph:
                     c = mir.op_const(o)
                     if c and "fn" in c:
                         out.add(c["fn"])
+                        if "fn_resolved" in c:
+                            out.add(c["fn_resolved"])
                         out.update(c.get("fnrefs", ()))
             t = b["t"]
             if t["k"] == "call":
@@ -106,6 +108,8 @@ class CallGraph:
                     cc = mir.op_const(a)
                     if cc and "fn" in cc:
                         out.add(cc["fn"])
+                        if "fn_resolved" in cc:
+                            out.add(cc["fn_resolved"])
                         out.update(cc.get("fnrefs", ()))
         # async fn: its coroutine body
         clo = f["path"] + "::{closure#0}"
